@@ -211,6 +211,18 @@ def generate(tier, rng):
             continue
         yield 'QC %s %d %d %s %s %s %s %s %s' % ('s' if signed else 'u', n, f, r, o, kind, rng.choice(['ctor', 'call', 'setval']),
                                                  G.vals_tok(re_), G.vals_tok(im_))
+        # one component of any finite magnitude (saturate, n_frac >= 0), the other an ordinary one: each component is quantized on its own
+        if f >= 0 and k >= 1 and rng.random() < 0.5:
+            e = rng.choice([rng.randint(60, 1023), 1023 - rng.randint(0, f), 1023])      # (often large enough for the scaled value to leave the double range)
+            big = Fraction(rng.randint(2 ** 52, 2 ** 53 - 1)) * Fraction(2) ** (e - 52) * rng.choice([1, -1] if signed else [1])
+            if is_exact_float(big):
+                re2, im2 = list(re_), list(im_)
+                if rng.random() < 0.5:
+                    re2[0] = big
+                else:
+                    im2[0] = big
+                yield 'QC %s %d %d %s saturate %s %s %s %s' % ('s' if signed else 'u', n, f, r, kind, rng.choice(['ctor', 'call', 'setval']),
+                                                              G.vals_tok(re2), G.vals_tok(im2))
 
 
 def nontrivial(full_line, model):
